@@ -198,7 +198,7 @@ impl Scenario for C07Cli {
 			format!("{}/main.jsonnet", rel_from(&plan.cwd, &plan.main_dir))
 		});
 		let mut cfg = ChildCfg {
-			timeout: Duration::from_secs(120),
+			timeout: Duration::from_secs(900),
 			..Default::default()
 		};
 		let cwd_real = PathBuf::from(format!("{root}{}", plan.cwd));
@@ -754,7 +754,7 @@ impl Scenario for C15Cli {
 		}
 		let cwd_real = PathBuf::from(format!("{root}{}", plan.cwd));
 		let mut cfg = ChildCfg {
-			timeout: Duration::from_secs(120),
+			timeout: Duration::from_secs(900),
 			..Default::default()
 		};
 		cfg.cwd = Some(&cwd_real);
@@ -987,6 +987,45 @@ impl Scenario for C15Deps {
 		let mut libs: Vec<&str> = vec!["/l0", "/l1", "/l2"];
 		rng.shuffle(&mut libs);
 		let n_j = rng.below(4).min(3);
+		let mut world = world;
+		let mut entry = entry;
+		if rng.chance(1, 3) {
+			// gadget: the same import spelling means two different files in two directories, and each
+			// of them has dependencies of its own
+			let mut add = |path: &str, strict: Vec<&str>, lazy: Vec<(&str, Kind, &str)>, w: &mut World| {
+				let idx = w.contents.len();
+				w.contents.push(Content::Code {
+					cid: format!("g{idx}"),
+					strict: strict.into_iter().map(str::to_owned).collect(),
+					lazy: lazy
+						.into_iter()
+						.map(|(f, k, s)| c07::Lazy {
+							field: f.to_owned(),
+							kind: k,
+							spelling: s.to_owned(),
+						})
+						.collect(),
+					payload: idx as i64,
+				});
+				w.files.insert(path.to_owned(), idx);
+			};
+			let (d1, d2) = *rng.pick(&[("/w", "/w/sub"), ("/w", "/l0"), ("/l1", "/w/sub")]);
+			add(&format!("{d1}/only1.jsonnet"), vec![], vec![], &mut world);
+			add(&format!("{d2}/only2.jsonnet"), vec![], vec![], &mut world);
+			add(&format!("{d1}/u.jsonnet"), vec![], vec![("p", Kind::Code, "only1.jsonnet")], &mut world);
+			add(&format!("{d2}/u.jsonnet"), vec![], vec![("p", Kind::Code, "only2.jsonnet"), ("q", Kind::Str, "only2.jsonnet")], &mut world);
+			add(&format!("{d1}/m1.jsonnet"), vec!["u.jsonnet"], vec![], &mut world);
+			add(&format!("{d2}/m2.jsonnet"), vec![], vec![("r", Kind::Code, "u.jsonnet")], &mut world);
+			let top = "/w/top.jsonnet".to_owned();
+			let s1 = format!("{d1}/m1.jsonnet");
+			let s2 = format!("{d2}/m2.jsonnet");
+			if rng.chance(1, 2) {
+				add(&top, vec![s1.as_str(), s2.as_str()], vec![], &mut world);
+			} else {
+				add(&top, vec![s2.as_str()], vec![("p", Kind::Code, s1.as_str())], &mut world);
+			}
+			entry = top;
+		}
 		DepsPlan {
 			world,
 			cwd: (*rng.pick(&["/w", "/w/sub", "/"])).to_owned(),
@@ -1061,7 +1100,7 @@ impl Scenario for C15Deps {
 		args.push(format!("{root}{}", plan.entry));
 		let cwd_real = PathBuf::from(format!("{root}{}", plan.cwd));
 		let mut cfg = ChildCfg {
-			timeout: Duration::from_secs(120),
+			timeout: Duration::from_secs(900),
 			..Default::default()
 		};
 		cfg.cwd = Some(&cwd_real);
